@@ -36,6 +36,7 @@ pub fn plan(check: Check, seed: u64) -> (Profile, OpMix) {
         extra: 6,
         tiny_patterns: true,
         non_ascii_urls: false,
+        hostname_wildcards: false,
     };
     let mix = OpMix { n_ops: (6, 40), blocker_driver: false, tags: 25, clock: 15, evict: 12, serial: 10, restart: 3, resources: 6, add_filter: 0, optimize: 0, queries: 30 };
     match check {
@@ -51,20 +52,29 @@ pub fn plan(check: Check, seed: u64) -> (Profile, OpMix) {
             }
         }
         Check::C05 => {
-            let p = Profile { p_tag: 30, p_regexish: 40, cosmetic: false, perms: false, extra: 10, non_ascii_urls: true, ..base };
+            let p = Profile { p_tag: 30, p_regexish: 40, cosmetic: false, perms: false, extra: 10, non_ascii_urls: true, hostname_wildcards: true, ..base };
             if r.chance(50) {
                 // (no non-ASCII URLs with add_filter: incremental and batch indexing choose buckets differently)
-                (Profile { badfilter: false, non_ascii_urls: false, ..p }, OpMix { blocker_driver: true, add_filter: 10, optimize: 14, serial: 0, restart: 0, tags: 20, ..mix })
+                (Profile { badfilter: false, non_ascii_urls: false, hostname_wildcards: false, ..p }, OpMix { blocker_driver: true, add_filter: 10, optimize: 14, serial: 0, restart: 0, tags: 20, ..mix })
             } else {
                 (p, OpMix { serial: 0, restart: 0, ..mix })
             }
         }
-        Check::C07 => (
-            Profile { p_tag: 60, n_rules: (10, 60), tiny_patterns: false, ..base },
-            OpMix { tags: 40, serial: 12, restart: 5, clock: 8, evict: 8, resources: 2, ..mix },
-        ),
+        Check::C07 => {
+            let p = Profile { p_tag: 60, n_rules: (10, 60), tiny_patterns: false, ..base };
+            if r.chance(30) {
+                // Blocker driver: tagged rules (also tagged $important / exception / csp ones) added one at a
+                // time while tags are enabled, followed by further tag operations
+                (
+                    Profile { badfilter: false, cosmetic: false, perms: false, extra: 14, ..p },
+                    OpMix { blocker_driver: true, tags: 40, add_filter: 22, optimize: 4, serial: 0, restart: 0, clock: 6, evict: 6, resources: 0, ..mix },
+                )
+            } else {
+                (p, OpMix { tags: 40, serial: 12, restart: 5, clock: 8, evict: 8, resources: 2, ..mix })
+            }
+        }
         Check::C08 => (
-            Profile { p_tag: 30, non_ascii_urls: true, ..base },
+            Profile { p_tag: 30, non_ascii_urls: true, hostname_wildcards: true, ..base },
             OpMix { tags: 18, serial: 25, restart: 15, clock: 5, evict: 5, resources: 5, queries: 25, ..mix },
         ),
     }
